@@ -254,11 +254,36 @@ type c07Parent struct {
 	NumUses          int      `json:"num_uses"`
 	Batch            bool     `json:"batch"`
 	EntityID         string   `json:"entity_id,omitempty"`
+	EntityVia        string   `json:"entity_via,omitempty"`      // login | role-alias: how the harness bound the parent to its entity
+	EntityPolicies   []string `json:"entity_policies,omitempty"` // what the harness wrote on the entity
+	GroupPolicies    []string `json:"group_policies,omitempty"`  // what the harness wrote on the group the entity is a member of
+	ident            *c07Ident
 }
 
+// allPolicies: what decides the CALLER's capabilities (concepts/identity.mdx: entity and group policies
+// grant additional capabilities to the token at request time).
 func (p *c07Parent) allPolicies() []string {
 	return c07Norm(append(append([]string{}, p.TokenPolicies...), p.IdentityPolicies...))
 }
+
+// identityOnly: policies the parent derives from its entity / groups but that are not on the token itself.
+// They are "only a means to grant additional capabilities and not a replacement for the policies on the
+// token"; "the policy names on the token [are] immutable". What a caller without sudo may hand to a child
+// is "a subset of the policies belonging to the token making the request" (api/auth/token.mdx): the token's
+// own list.
+func (p *c07Parent) identityOnly() []string {
+	var out []string
+	for _, x := range c07Norm(p.IdentityPolicies) {
+		if !c07Has(p.TokenPolicies, x) {
+			out = append(out, x)
+		}
+	}
+	return out
+}
+
+// c07StripView names the lookup of the created token after the harness emptied the policy lists of the
+// parent's entity and group.
+const c07StripView = "lookup-after-identity-policies-removed"
 
 type c07Case struct {
 	ID       string        `json:"case"`
@@ -268,6 +293,10 @@ type c07Case struct {
 	Update   bool          `json:"ref_update_on_path"`
 	CrossNS  bool          `json:"cross_namespace"`
 	MountMax time.Duration `json:"mount_max_ttl"`
+	// SudoViaIdentity: sudo on the called path comes from the entity/group policies only (still sudo for the caller)
+	SudoViaIdentity bool `json:"ref_sudo_only_through_identity,omitempty"`
+	// AliasEntity: the entity the accepted entity_alias of the request names on the token mount ("" = not resolved)
+	AliasEntity string `json:"alias_entity,omitempty"`
 }
 
 // c07View is one observation of the created token (auth block of the response,
@@ -344,10 +373,12 @@ func c07Judge(c *c07Case, v *c07View) []c07Finding {
 	}
 
 	// I4 policy bound. sudo on the called path (or root) lifts it; a role with
-	// allowed lists replaces it by the lists; otherwise: subset of the parent's
-	// policies plus default. A policy name in another namespace is another policy,
+	// allowed lists replaces it by the lists; otherwise: subset of the policies of the parent
+	// TOKEN (its own, stored list - not what the parent's entity or groups add at request time)
+	// plus default. A policy name in another namespace is another policy,
 	// so across namespaces (without sudo) only default can be justified.
 	if !c.Sudo {
+		idOnly := p.identityOnly()
 		for _, x := range pols {
 			if x == "default" || x == "root" { // default: I6; root: I2
 				continue
@@ -360,13 +391,18 @@ func c07Judge(c *c07Case, v *c07View) []c07Finding {
 			case c.CrossNS:
 				add("C07-cross-namespace-policy-without-sudo", "token in %q created by a token of %q without sudo carries %q", q.NS, p.NS, x)
 			default:
-				if !c07Has(parentAll, x) {
-					if ro != nil && ro.hasDenyLists() {
+				if !c07Has(p.TokenPolicies, x) {
+					switch {
+					case ro != nil && ro.hasDenyLists():
 						// signature of the one disagreement found on the pinned tree: role has ONLY
 						// disallowed lists, caller has no sudo, policy is not one of the parent's
-						add("C07-role-with-only-disallowed-lists-lifts-parent-subset", "policy %q is not a policy of the parent %v; the role has no allowed lists (disallowed %v glob %v), caller has no sudo", x, parentAll, ro.Disallowed, ro.DisallowedGlob)
-					} else {
-						add("C07-policy-outside-parent", "policy %q is not a policy of the parent %v (no sudo, endpoint %s)", x, parentAll, q.Endpoint)
+						add("C07-role-with-only-disallowed-lists-lifts-parent-subset", "policy %q is not a policy of the parent %v (identity-derived %v); the role has no allowed lists (disallowed %v glob %v), caller has no sudo", x, p.TokenPolicies, p.IdentityPolicies, ro.Disallowed, ro.DisallowedGlob)
+					case c07Has(idOnly, x) && v.Name == c07StripView:
+						add("C07-child-keeps-policy-after-parent-entity-and-group-lost-it", "the parent's entity and group no longer carry any policy, the child created without sudo still has token policy %q, which the parent token %v never had (entity had %v, group had %v)", x, p.TokenPolicies, p.EntityPolicies, p.GroupPolicies)
+					case c07Has(idOnly, x):
+						add("C07-child-carries-identity-only-policy-of-parent", "token policy %q of the child is not a policy of the parent token %v; the parent only derives it from its entity/group (entity %v, group %v); caller has no sudo, endpoint %s, requested %v", x, p.TokenPolicies, p.EntityPolicies, p.GroupPolicies, q.Endpoint, q.Policies)
+					default:
+						add("C07-policy-outside-parent", "policy %q is not a policy of the parent %v (no sudo, endpoint %s)", x, p.TokenPolicies, q.Endpoint)
 					}
 				}
 			}
@@ -392,7 +428,7 @@ func c07Judge(c *c07Case, v *c07View) []c07Finding {
 		case q.NoDefault:
 			add("C07-default-despite-no-default-policy", "no_default_policy=true but token carries default")
 		case ro != nil && ro.NoDefault:
-			byName := c07Has(req, "default") || (len(req) == 0 && (c07Has(parentAll, "default") || c07Has(c07Norm(ro.Allowed), "default")))
+			byName := c07Has(req, "default") || (len(req) == 0 && (c07Has(p.TokenPolicies, "default") || c07Has(c07Norm(ro.Allowed), "default")))
 			if !byName {
 				add("C07-role-token-no-default-policy-ignored-default-added-automatically", "role has token_no_default_policy=true, default was neither requested %v nor inherited, yet the token carries default (role has allow lists: %v, deny lists: %v, sudo=%v)", q.Policies, ro.hasAllowLists(), ro.hasDenyLists(), c.Sudo)
 			}
@@ -498,12 +534,34 @@ func c07Judge(c *c07Case, v *c07View) []c07Finding {
 		}
 	}
 
-	// I14 identity: a token gets an entity other than its parent's only through a role that allows the alias.
+	// I14 identity binding (api/auth/token.mdx, entity_alias: "Only works in combination with role_name ... must be
+	// listed in allowed_entity_aliases. If this has been specified, the entity will not be inherited from the parent"):
+	//  - a token gets an entity other than its parent's only through a role that allows the requested alias, and then
+	//    it is the entity of that alias;
+	//  - otherwise a token that has a parent inherits the parent's entity (nothing is stated for orphans: they may
+	//    carry the creator's entity or none).
 	// (the stored entity id of a child-namespace token is suffixed with the namespace id)
-	if v.EntityID != "" && v.EntityID != p.EntityID && !(p.EntityID != "" && strings.HasPrefix(v.EntityID, p.EntityID+".")) {
-		ok := ro != nil && q.EntityAlias != "" && (c07Has(c07Norm(ro.Aliases), strings.ToLower(q.EntityAlias)) || c07GlobAny(ro.Aliases, strings.ToLower(q.EntityAlias)))
-		if !ok {
-			add("C07-entity-not-from-parent-or-allowed-alias", "token entity %s, parent entity %q, requested alias %q", v.EntityID, p.EntityID, q.EntityAlias)
+	sameEnt := func(got, want string) bool {
+		return want != "" && (got == want || strings.HasPrefix(got, want+".") || strings.HasPrefix(want, got+"."))
+	}
+	aliasOK := ro != nil && q.EntityAlias != "" && (c07Has(c07Norm(ro.Aliases), strings.ToLower(q.EntityAlias)) || c07GlobAny(ro.Aliases, strings.ToLower(q.EntityAlias)))
+	switch {
+	case aliasOK:
+		if c.AliasEntity != "" && !sameEnt(v.EntityID, c.AliasEntity) {
+			add("C07-entity-alias-accepted-but-token-not-bound-to-the-alias-entity", "entity_alias %q is allowed by the role and resolves to entity %s, token entity %q (parent entity %q)", q.EntityAlias, c.AliasEntity, v.EntityID, p.EntityID)
+		}
+	case v.EntityID != "" && !sameEnt(v.EntityID, p.EntityID):
+		add("C07-entity-not-from-parent-or-allowed-alias", "token entity %s, parent entity %q, requested alias %q", v.EntityID, p.EntityID, q.EntityAlias)
+	case v.EntityID == "" && p.EntityID != "" && !v.Orphan:
+		add("C07-child-does-not-inherit-parent-entity", "non-orphan token without entity_alias has no entity, parent entity %q", p.EntityID)
+	}
+
+	// I14b once entity and group carry no policies, nothing may be derived from them any more
+	if v.Name == c07StripView && sameEnt(v.EntityID, p.EntityID) {
+		for _, x := range c07Norm(v.AllPolicies) {
+			if c07Has(c07Norm(p.IdentityPolicies), x) {
+				add("C07-identity-policy-still-derived-after-removal-from-entity-and-group", "lookup still reports identity policy %q", x)
+			}
 		}
 	}
 
@@ -526,7 +584,6 @@ func c07Asks(c *c07Case) []string {
 		asks = append(asks, "use-limited-parent")
 	}
 	req := c07Norm(q.Policies)
-	parentAll := p.allPolicies()
 	if c07Has(req, "root") && !p.Root {
 		asks = append(asks, "root")
 	}
@@ -546,8 +603,14 @@ func c07Asks(c *c07Case) []string {
 					asks = append(asks, "policy-outside-role-lists")
 					break
 				}
-			} else if !c07Has(parentAll, x) {
+			} else if !c07Has(p.TokenPolicies, x) && !c07Has(p.identityOnly(), x) {
 				asks = append(asks, "policy-outside-parent")
+				break
+			}
+		}
+		for _, x := range req {
+			if c07Has(p.identityOnly(), x) && !(ro != nil && ro.hasAllowLists()) {
+				asks = append(asks, "identity-only-policy")
 				break
 			}
 		}
